@@ -98,7 +98,7 @@ def write_replay(pid, r, build):
             if drv and args:
                 p = subprocess.run([drv] + args, stdout=subprocess.PIPE, stderr=subprocess.PIPE,
                                    text=True, timeout=120,
-                                   env=dict(os.environ, ASAN_OPTIONS="detect_leaks=1:abort_on_error=0"))
+                                   env=dict(os.environ, ASAN_OPTIONS="detect_leaks=0:abort_on_error=0"))
                 rec["native_replay"] = {
                     "argv": args, "exit": p.returncode,
                     "reproduced": p.returncode != 0,
